@@ -23,6 +23,7 @@ import (
 	"strconv"
 	"strings"
 	"sync"
+	"syscall"
 	"time"
 )
 
@@ -219,6 +220,8 @@ func (e *Env) TLC(r TLCRun) (*TLCResult, error) {
 		args = append(args, "-seed", strconv.FormatInt(r.Seed, 10))
 	}
 	args = append(args, r.Module+".tla")
+	release := acquireTLCSlot()
+	defer release()
 	cmd := exec.Command("java", args...)
 	cmd.Dir = work
 	cmd.Env = append(os.Environ(), "JAVA_TOOL_OPTIONS=")
@@ -292,6 +295,29 @@ func (e *Env) TLC(r TLCRun) (*TLCResult, error) {
 		return res, fmt.Errorf("tlc %s/%s: %v\n%s", r.Dir, r.Module, werr, res.Stdout)
 	}
 	return res, nil
+}
+
+// acquireTLCSlot limits the number of TLC JVMs running at once on this machine (all checks of all
+// users share /tmp/gpv-tlc-slot-*): several checks started in parallel otherwise oversubscribe the
+// cores so badly that TLC calls hit their time-outs. A single check never waits.
+func acquireTLCSlot() func() {
+	n := 3
+	if v, err := strconv.Atoi(os.Getenv("VERIF_TLC_SLOTS")); err == nil && v > 0 {
+		n = v
+	}
+	for {
+		for i := 0; i < n; i++ {
+			f, err := os.OpenFile(fmt.Sprintf("/tmp/gpv-tlc-slot-%d", i), os.O_CREATE|os.O_RDWR, 0o666)
+			if err != nil {
+				return func() {}
+			}
+			if syscall.Flock(int(f.Fd()), syscall.LOCK_EX|syscall.LOCK_NB) == nil {
+				return func() { syscall.Flock(int(f.Fd()), syscall.LOCK_UN); f.Close() }
+			}
+			f.Close()
+		}
+		time.Sleep(300 * time.Millisecond)
+	}
 }
 
 // MustTLC runs TLC and ends the run as inconclusive if TLC itself failed
